@@ -246,21 +246,23 @@ def _saturations(ctx: Ctx, mod) -> None:
                   facts={"s0": str(sp.simplify(sv[0])), "s1": str(sp.simplify(sv[1]))})
     ctx.check("R3", _z(sv[0] + sv[1] - 1), mod, q, asg[1], "two-phase saturations must sum to one", construct=f"{q}: two-phase unity")
     # ---- n-phase system
-    rhs_a = [s for s in stmts_local(fn) if isinstance(s, ast.Assign) and u(s.targets[0]) == "rhs"]
-    loops = [l for l in walk_local(fn) if isinstance(l, ast.For) and any(isinstance(s, ast.Assign) and isinstance(s.targets[0], ast.Subscript)
-                                                                       and u(s.targets[0].value) == "mat" for s in l.body)]
     solve = [c for c in ast.walk(fn) if isinstance(c, ast.Call) and dotted(c.func) == "np.linalg.solve"]
-    if len(rhs_a) != 1 or len(loops) != 1 or len(solve) != 1:
-        raise Undecided(f"{q}: n-phase system not of the recognised form (rhs = ..., for j: mat[j] = ..., np.linalg.solve(mat, rhs))")
-    ok_args = [u(a) for a in solve[0].args] == ["mat", "rhs"]
-    ctx.check("R4", ok_args, mod, q, solve[0], "the system must be solved as np.linalg.solve(mat, rhs)", construct=f"{q}: solve(mat, rhs)")
-    filled = [c for c in ast.walk(fn) if isinstance(c, ast.Call) and dotted(c.func) == "np.fill_diagonal" and u(c.args[0]) == "mat"]
+    if len(solve) != 1 or len(solve[0].args) != 2 or not all(isinstance(a_, ast.Name) for a_ in solve[0].args):
+        raise Undecided(f"{q}: n-phase system is not solved by a single np.linalg.solve(<matrix name>, <rhs name>)")
+    MAT, RHS = solve[0].args[0].id, solve[0].args[1].id
+    rhs_a = [s for s in stmts_local(fn) if isinstance(s, ast.Assign) and u(s.targets[0]) == RHS]
+    loops = [l for l in walk_local(fn) if isinstance(l, ast.For) and any(isinstance(s, ast.Assign) and isinstance(s.targets[0], ast.Subscript)
+                                                                       and u(s.targets[0].value) == MAT for s in l.body)]
+    if len(rhs_a) != 1 or len(loops) != 1:
+        raise Undecided(f"{q}: n-phase system not of the recognised form ({RHS} = ..., for j: {MAT}[j] = ..., np.linalg.solve({MAT}, {RHS}))")
+    ctx.check("R4", True, mod, q, solve[0], "the system is solved as np.linalg.solve(matrix, rhs)", construct=f"{q}: solve(mat, rhs)")
+    filled = [c for c in ast.walk(fn) if isinstance(c, ast.Call) and dotted(c.func) == "np.fill_diagonal" and u(c.args[0]) == MAT]
     zero_diag = bool(filled) and isinstance(filled[0].args[1], ast.Constant) and filled[0].args[1].value == 0
     loop = loops[0]
     jn = u(loop.target)
-    row_asg = [s for s in loop.body if isinstance(s, ast.Assign) and u(s.targets[0]) == f"mat[{jn}]"]
+    row_asg = [s for s in loop.body if isinstance(s, ast.Assign) and u(s.targets[0]) == f"{MAT}[{jn}]"]
     if len(row_asg) != 1:
-        raise Undecided(f"{q}: row assignment mat[{jn}] = ... not found")
+        raise Undecided(f"{q}: row assignment {MAT}[{jn}] = ... not found")
     # names of the restricted arrays used in the formulas (y_, rho_)
     n = 3
     ys = sp.symbols(f"y0:{n}", positive=True)
